@@ -182,8 +182,10 @@ def stoich_side(draw, labels, max_order):
 def system_spec(draw, variety="mild", space_kind="any", max_species=4, max_reactions=3, max_order=3,
                 max_env=3, max_cells=12, chemostats="none", state="any", simple_graph=True,
                 periodic=True, count_exp=(0, 3), rate_exp=(-2, 1), max_axis=4, min_species=1,
-                reversible=True):
+                reversible=True, min_reactions=0):
     """A complete reaction-diffusion system description (see module docstring)."""
+    if chemostats == "mixed":
+        chemostats = draw(st.sampled_from(["species", "map"]))
     n_env = draw(st.integers(1, max_env))
     envs = draw(st.lists(st.sampled_from(ENV_LABELS), min_size=n_env, max_size=n_env, unique=True))
     sys_units = draw(units_level(DEFAULT, variety))
@@ -226,7 +228,7 @@ def system_spec(draw, variety="mild", space_kind="any", max_species=4, max_react
                         "density": draw(env_value(envs, dens_si, variety)),
                         "chstt": ch})
     reactions = []
-    n_r = draw(st.sampled_from([k for k in (0, 1, 1, 2, 2, 3, 3, 4, 5) if k <= max_reactions]))
+    n_r = draw(st.sampled_from([k for k in (0, 1, 1, 2, 2, 3, 3, 4, 5) if min_reactions <= k <= max_reactions]))
     for r in range(n_r):
         sub = draw(stoich_side(labels, max_order))
         prod = draw(stoich_side(labels, max_order))
@@ -268,6 +270,6 @@ def system_spec(draw, variety="mild", space_kind="any", max_species=4, max_react
                    "units": draw(st.sampled_from(["bare"] + (si.QUANTITY_SYMS if variety != "default" else ["molecule"])))}
     ch_spec = None
     if chemostats == "map" or (chemostats == "species" and draw(st.integers(0, 2)) == 0):
-        ch_spec = [int(draw(st.integers(0, 3)) == 0) for _ in range(n_sp * n_cells)]
+        ch_spec = [int(draw(st.integers(0, 2)) == 0) for _ in range(n_sp * n_cells)]
     return {"env": envs, "sys_units": sys_units, "net_units": net_units, "space": space,
             "species": species, "reactions": reactions, "state": st_spec, "chemostats": ch_spec}
